@@ -31,7 +31,9 @@ class Obligation:
 
     @property
     def key(self) -> str:
-        return "%s|%s|%s|%s" % (self.prop, self.rule, self.construct, self.detail)
+        # a method pulled up into a base class is analysed per subclass under `<cls>.<name>@inherited`; the
+        # obligation (and a finding recorded against it) is about what instances of <cls> run, wherever it is defined
+        return "%s|%s|%s|%s" % (self.prop, self.rule, self.construct.replace("@inherited", ""), self.detail)
 
     def as_dict(self) -> dict:
         d = {"property": self.prop, "rule": self.rule, "construct": self.construct,
@@ -83,11 +85,14 @@ def walk_local(fnode):
     Rules that inspect the syntax of an anchored function use this walk, so that code moved into a helper
     unknown to the reference tree is still seen where it is called."""
     from .program import walk_local as _wl
+    given = fnode if isinstance(fnode, FuncInfo) else None   # a FuncInfo: its own (per-class) inlining is walked
+    if given is not None:
+        fnode = given.node
     yield from _wl(fnode)
     ctx = CURRENT
     if ctx is None:
         return
-    fi = ctx.func_of_node(fnode)
+    fi = given or ctx.func_of_node(fnode)
     if fi is None:
         return
     try:
@@ -299,6 +304,23 @@ class Ctx:
         f = self.program.own_method(cls_q, name)
         self.functions_analysed.add(f.qualname)
         return f
+
+    def home_method(self, cls_q: str, name: str) -> FuncInfo:
+        """The function instances of *cls_q* run for *name*.  When the definition was pulled up above the class
+        that defines it in the reference tree (template method with hooks), it is analysed as a member of that
+        reference class, so that hooks bind to the back end and the obligation keeps its identity."""
+        P = self.program
+        ci = P.cls(cls_q)
+        actual = P.lookup_method(ci, name)
+        if actual is None:
+            raise AnalysisError("method %s.%s not found" % (cls_q, name))
+        from .inline import load_reference
+        ref = load_reference() or set()
+        home = next((c for c in ci.mro if "%s.%s" % (c.qualname, name) in ref), None)
+        if home is not None and actual.cls in ci.mro and ci.mro.index(actual.cls) > ci.mro.index(home):
+            return self.own_method(home.qualname, name)
+        self.functions_analysed.add(actual.qualname)
+        return actual
 
     def note(self, s: str):
         self.notes.append(s)
